@@ -127,6 +127,19 @@ class StmtMixin:
         else:
             self.emit(st, fx, "SETATTR", node, obj=obj, field=field, val=val, prev=prev)
         st.heap[(obj, field)] = val
+        if isinstance(val, tuple) and val and val[0] in ("dfr", "timer", "new"):
+            # an object a closure made on this path has captured under a local name is stored into a field of another object the
+            # closure captured (d = Deferred(); def expired(): d.errback(..) ...; request.deferred = d): in the callback the local
+            # stands for that field
+            for cid, (cenv, _cself, cfi) in list(getattr(self, "_closure_env", {}).items()):
+                if cfi.parent is not fx.func and cfi.parent is not None and cfi.parent.qual != fx.func.qual:
+                    continue
+                for k, v in cenv.items():
+                    if v == val and isinstance(k, str):
+                        for o, ov in cenv.items():
+                            if o != k and ov == obj and isinstance(o, str):
+                                self._closure_alias = getattr(self, "_closure_alias", {})
+                                self._closure_alias.setdefault(cfi.qual, {})[k] = (o, field)
         # facts about the overwritten location are gone
         loc = ("attr", obj, field)
         for k in [k for k in st.facts if mentions(k, loc)]:
